@@ -17,7 +17,7 @@ Ends == {"null", "int", "bool", "arr", "false", "zero", "arr0"}     \* the last 
 Defs == {"", "m", "+", "g", "s", "m+gs", "M", "G", "a", ">", "F", "mF"}     \* F: a FIELD named m (fields and methods are separate namespaces), mF: both a field m and a method m; M: m with two parameters, G: get without parameters (overriding with a different parameter count), a: a method named add (a Feeny spelling used as an ordinary name)
 \* (operators with a parameter: TLC evaluates every parameterless constant definition when it starts, needed or not)
 Chains(maxdepth) == UNION {[1..n -> Defs] : n \in 0..maxdepth}
-Calls == {"m1", "m0", "m2", "plus", "and", "index", "setindex", "get", "set", "zz", "field", "fieldm", "eqnull", "ne5", "feq", "fneq", "add1", "plus0", "plus2", "lt3", "gt1", "ge1"}
+Calls == {"m1", "m0", "m2", "plus", "and", "index", "setindex", "get", "set", "zz", "field", "fieldm", "eqnull", "ne5", "feq", "fneq", "add1", "plus0", "plus2", "lt3", "gt1", "ge1", "plus_stmt", "m1_stmt", "setindex_stmt"}    \* _stmt: the call in statement position, its value discarded (it must still be dispatched)
 Kinds == {"var", "arg", "field", "elem", "this"}
 Dispatch(maxdepth) == {<<"dispatch", e, c>> \o ch : e \in Ends, c \in Calls, ch \in Chains(maxdepth)}
 Alias == {<<"alias", target, k1, k2, mut>> : target \in {"obj", "arr"}, k1 \in Kinds, k2 \in Kinds, mut \in {"setfield", "setelem", "method"}}
@@ -28,7 +28,7 @@ Value == {<<"value", v, k1, k2>> : v \in {"int", "bool", "null"}, k1 \in Kinds \
 Quick == "STRIDE" \in DOMAIN IOEnv
 Offset == IF "OFFSET" \in DOMAIN IOEnv THEN CHOOSE k \in 0..199 : ToString(k) = IOEnv.OFFSET ELSE 0
 DefSeq == <<"", "m", "+", "g", "s", "m+gs", "M", "G", "a", ">", "F", "mF">>
-CallSeq == <<"m1", "m0", "m2", "plus", "and", "index", "setindex", "get", "set", "zz", "field", "fieldm", "eqnull", "ne5", "feq", "fneq", "add1", "plus0", "plus2", "lt3", "gt1", "ge1">>
+CallSeq == <<"m1", "m0", "m2", "plus", "and", "index", "setindex", "get", "set", "zz", "field", "fieldm", "eqnull", "ne5", "feq", "fneq", "add1", "plus0", "plus2", "lt3", "gt1", "ge1", "plus_stmt", "m1_stmt", "setindex_stmt">>
 EndSeq == <<"null", "int", "bool", "arr", "false", "zero", "arr0">>
 Idx(seq, v) == CHOOSE i \in 1..Len(seq) : seq[i] = v
 ASSUME {DefSeq[i] : i \in 1..Len(DefSeq)} = Defs /\ {CallSeq[i] : i \in 1..Len(CallSeq)} = Calls /\ {EndSeq[i] : i \in 1..Len(EndSeq)} = Ends
